@@ -713,3 +713,56 @@ pub proof fn lemma_quotient_from_parts(d: CompiledDfa, tm: TMapV, p: PartV, q: C
         }
     }
 }
+
+// ---------------------------------------------------------------- update_transitions: the per-state maps, merged per group and renumbered
+pub type TvEntry = (StateID, BTreeMap<CharClassID, Vec<StateID>>);
+pub open spec fn tv_edge(tv: Seq<TvEntry>, i: int, cc: CharClassID, t: StateID) -> bool {
+    0 <= i < tv.len() && tv[i].1@.contains_key(cc) && tv[i].1@[cc]@.contains(t)
+}
+pub open spec fn tv_sorted(tv: Seq<TvEntry>) -> bool { forall|i: int, j: int| 0 <= i < j < tv.len() ==> (#[trigger] tv[i]).0.0 < (#[trigger] tv[j]).0.0 }
+pub open spec fn tv_pos(tv: Seq<TvEntry>, s: StateID, i: int) -> bool { 0 <= i < tv.len() && tv[i].0 == s }
+pub open spec fn map_edge(m: Map<CharClassID, Vec<StateID>>, cc: CharClassID, t: StateID) -> bool { m.contains_key(cc) && m[cc]@.contains(t) }
+/// BTreeSet<StateID> iterates in ascending id order (derived Ord of the id newtype, rule E4)
+pub axiom fn axiom_set_iter_ascending<'a>(rem: Seq<&'a StateID>)
+    requires vstd::std_specs::btree::increasing_seq(rem)
+    ensures forall|i: int, j: int| 0 <= i < j < rem.len() ==> (#[trigger] rem[i]).0 < (#[trigger] rem[j]).0;
+/// BTreeMap<StateID, _> iterates in ascending key order (same)
+pub axiom fn axiom_map_iter_ascending<'a, V>(rem: Seq<(&'a StateID, &'a V)>)
+    requires vstd::std_specs::btree::increasing_seq(rem.map_values(|e: (&'a StateID, &'a V)| e.0))
+    ensures forall|i: int, j: int| 0 <= i < j < rem.len() ==> (#[trigger] rem[i]).0.0 < (#[trigger] rem[j]).0.0;
+/// Clone of a BTreeMap<CharClassID, Vec<StateID>> has the same keys with equal target lists (std Clone, rule E4)
+pub axiom fn axiom_cloned_ccmap(a: BTreeMap<CharClassID, Vec<StateID>>, b: BTreeMap<CharClassID, Vec<StateID>>)
+    ensures vstd::pervasive::cloned(a, b) ==> (forall|cc: CharClassID| #[trigger] b@.contains_key(cc) <==> a@.contains_key(cc)) && (forall|cc: CharClassID| #[trigger] a@.contains_key(cc) ==> b@[cc]@ == a@[cc]@);
+pub axiom fn axiom_cloned_targets(a: Vec<StateID>, b: Vec<StateID>)
+    ensures vstd::pervasive::cloned(a, b) ==> a@ == b@;
+/// entry sp (state) removed, its edges added to entry rp (rep); everything else as before
+pub open spec fn merged_one(old: Seq<TvEntry>, new: Seq<TvEntry>, rep: StateID, state: StateID, rp: int, sp: int) -> bool {
+    &&& tv_pos(old, rep, rp) && tv_pos(old, state, sp) && rp < sp
+    &&& new.len() == old.len() - 1
+    &&& forall|i: int| 0 <= i < sp && i != rp ==> #[trigger] new[i] == old[i]
+    &&& forall|i: int| sp <= i < new.len() ==> #[trigger] new[i] == old[i + 1]
+    &&& new[rp].0 == rep
+    &&& forall|cc: CharClassID, t: StateID| #[trigger] map_edge(new[rp].1@, cc, t) <==> (map_edge(old[rp].1@, cc, t) || map_edge(old[sp].1@, cc, t))
+}
+pub assume_specification<T: PartialEq>[ <[T]>::contains ](s: &[T], x: &T) -> (r: bool)
+    ensures r == s@.contains(*x);   // assumes T's PartialEq is structural
+/// clone of a target list / of a per-class map (std Clone)
+#[verifier::external_body]
+pub fn verif_clone_targets(v: &Vec<StateID>) -> (r: Vec<StateID>)
+    ensures r@ == v@
+{ v.clone() }
+#[verifier::external_body]
+pub fn verif_clone_ccmap(m: &BTreeMap<CharClassID, Vec<StateID>>) -> (r: BTreeMap<CharClassID, Vec<StateID>>)
+    ensures forall|cc: CharClassID| #[trigger] r@.contains_key(cc) <==> m@.contains_key(cc), forall|cc: CharClassID| #[trigger] m@.contains_key(cc) ==> r@[cc]@ == m@[cc]@
+{ m.clone() }
+pub proof fn lemma_sorted_pos_unique(tv: Seq<TvEntry>, s: StateID, i: int, j: int)
+    requires tv_sorted(tv), tv_pos(tv, s, i), tv_pos(tv, s, j)
+    ensures i == j
+{
+    if i < j { assert(tv[i].0.0 < tv[j].0.0); }
+    if j < i { assert(tv[j].0.0 < tv[i].0.0); }
+}
+
+pub open spec fn rem_edge<'a>(rem: Seq<(&'a CharClassID, &'a Vec<StateID>)>, k: int, cc: CharClassID, t: StateID) -> bool {
+    exists|i: int| 0 <= i < k && i < rem.len() && *(#[trigger] rem[i]).0 == cc && rem[i].1@.contains(t)
+}
